@@ -96,7 +96,7 @@ exit "$1"
 """
 
 
-def gen_check(rng, d, name, k):
+def gen_check(rng, d, name, k, big=False):
     """one .check file and its model-side description"""
     spec = {"name": name, "dir": d, "req": True, "cmds": [], "cmps": [], "malformed": False, "files": {}}
     lines = []
@@ -107,7 +107,7 @@ def gen_check(rng, d, name, k):
     if kind < 0.12:
         spec["req"] = False
         lines.append('@Requires {"verif::no_such_component"};')
-    ncmd = rng.choice([1, 1, 2, 2, 3, 5]) if rng.random() < 0.97 else 40
+    ncmd = 40 if (big and rng.random() < 0.03) else rng.choice([1, 1, 2, 2, 3, 5] if big else [1, 1, 2, 2, 3])
     for c in range(ncmd):
         fail = rng.random() < 0.22
         ms = rng.choice([0, 1, 2, 5, 10, 20, 40])
@@ -141,7 +141,7 @@ def gen_check(rng, d, name, k):
     return spec, "\n".join(lines) + "\n"
 
 
-def gen_tree(rng, root, nchecks):
+def gen_tree(rng, root, nchecks, big=False):
     os.makedirs(root)
     specs = []
     ndirs = max(1, nchecks // 4)
@@ -153,7 +153,7 @@ def gen_tree(rng, root, nchecks):
         with open(os.path.join(root, d, "run.sh"), "w") as f:
             f.write(RUN_SH)
         name = "t%03d" % k
-        spec, text = gen_check(rng, d, name, k)
+        spec, text = gen_check(rng, d, name, k, big)
         with open(os.path.join(root, d, name + ".check"), "w") as f:
             f.write(text)
         for fn, content in spec["files"].items():
@@ -282,13 +282,13 @@ def run(ck):
              "status_hist": {}, "blocks": 0}
     samples = []
     ntrees = 2 if q else 10
-    jobs_list = [1, 2, 3, 5, 16] if q else list(range(1, 17))
+    jobs_list = [1, 3, 16] if q else list(range(1, 17))
     for tr in range(ntrees):
-        nchecks = rng.choice([6, 12, 20]) if q else rng.choice([4, 10, 20, 40])
+        nchecks = rng.choice([5, 8]) if q else rng.choice([4, 10, 20, 40])
         if tr == ntrees - 1:
             nchecks = max(nchecks, 16)
         root = ck.path("tree%d" % tr)
-        specs = gen_tree(rng, root, nchecks)
+        specs = gen_tree(rng, root, nchecks, big=not q)
         if tr == 0:   # one tree whose checks all pass: the exit status must be EXIT_SUCCESS
             pass
         discard = rng.random() < 0.75
@@ -314,7 +314,7 @@ def run(ck):
         stats["checks"] += len(specs)
         reference = None      # blocks of the first run (-j 1), by test name
         # the last tree is also run repeatedly with the largest number of jobs (many short commands in parallel)
-        stress = [16] * (6 if q else 30) if tr == ntrees - 1 else []
+        stress = [16] * (5 if q else 30) if tr == ntrees - 1 else []
         for j in jobs_list + stress:
             yseed = rng.randrange(1, 2 ** 31) if j > 1 else 0
             rc, text, err = run_once(binary, root, j, yseed, extra)
